@@ -71,11 +71,36 @@ theorem Parses.leaf {P : List Prod} {a : Sym} (h : isTerminal P a = true) : Pars
 theorem Parses.derives {P : List Prod} {x : Sym} {t : Tree} {w : List Sym} (h : Parses P x t w) : Derives P x w :=
   ⟨t, h⟩
 
-theorem Derives.parses {P : List Prod} {x : Sym} {w : List Sym} (h : Derives P x w) : ∃ t, Parses P x t w := h
+theorem _root_.Mdsort.Spec.Cfg.Derives.parses {P : List Prod} {x : Sym} {w : List Sym} (h : Derives P x w) : ∃ t, Parses P x t w := h
 
 /-- Change of the stated yield along an equation. -/
 theorem Parses.cast {P : List Prod} {x : Sym} {t : Tree} {w w' : List Sym} (h : Parses P x t w) (e : w = w') :
     Parses P x t w' := e ▸ h
+
+/-! ### The same without naming the trees -/
+
+/-- A list of symbols derives the concatenation of what each derives. -/
+inductive DerivesL (P : List Prod) : List Sym → List Sym → Prop
+  | nil : DerivesL P [] []
+  | cons {x : Sym} {w : List Sym} {xs : List Sym} {ws : List Sym} :
+      Derives P x w → DerivesL P xs ws → DerivesL P (x :: xs) (w ++ ws)
+
+theorem DerivesL.trees {P : List Prod} {xs : List Sym} {w : List Sym} (h : DerivesL P xs w) : ∃ ts, ParsesL P xs ts w := by
+  induction h with
+  | nil => exact ⟨[], .nil⟩
+  | cons h1 _ ih =>
+    obtain ⟨t, ht⟩ := h1
+    obtain ⟨ts, hts⟩ := ih
+    exact ⟨t :: ts, .cons ht hts⟩
+
+theorem _root_.Mdsort.Spec.Cfg.Derives.node {P : List Prod} {x : Sym} {xs : List Sym} {w : List Sym}
+    (hp : P.contains (x, xs) = true) (h : DerivesL P xs w) : Derives P x w := by
+  obtain ⟨ts, hts⟩ := h.trees
+  exact (Parses.node hp hts).derives
+
+theorem _root_.Mdsort.Spec.Cfg.Derives.leaf {P : List Prod} {a : Sym} (h : isTerminal P a = true) : Derives P a [a] := (Parses.leaf h).derives
+
+theorem _root_.Mdsort.Spec.Cfg.Derives.cast {P : List Prod} {x : Sym} {w w' : List Sym} (h : Derives P x w) (e : w = w') : Derives P x w' := e ▸ h
 
 /-! ## The productions the proofs use -/
 
